@@ -65,6 +65,11 @@ int main(int argc, char** argv) {
     static const auto p = make_p();
     std::vector<std::string> inputs{""}; const char al[] = {'n', '+', ';', '(', ')', '!', 'x'};
     for (size_t lo = 0, l = 0; l < (size_t)n; ++l) { size_t hi = inputs.size(); for (size_t i = lo; i < hi; ++i) for (char c : al) inputs.push_back(inputs[i] + c); lo = hi; }
+    // beyond the exhaustive bound: inputs long / deep enough for the value stack (a std::vector reserved for 1024 entries) to reallocate while values are pending
+    { std::string longlist; for (int i = 0; i < 700; ++i) longlist += (i % 3 == 0) ? "n+n;" : "(n);"; inputs.push_back(longlist);
+      std::string deep(1500, '('); deep += "n"; deep += std::string(1500, ')'); deep += ";"; inputs.push_back(deep);
+      std::string deeperr(1200, '('); deeperr += "n+;"; inputs.push_back(deeperr);            // failure with many values pending
+      std::string rec; for (int i = 0; i < 400; ++i) rec += (i % 2 == 0) ? "n n;" : "n;"; inputs.push_back(rec); }   // hundreds of recoveries
     for (const std::string& in : inputs) {
         ++g_cases; R.reset();
         std::ostringstream es; bool ok;
